@@ -105,7 +105,8 @@ def make_seg_server(**kw):
     AUTHENTICATE it reads the client's segments with wire.SegmentLog (either header form, every
     segment recorded in conn.server_state['seglog'].segments) and wraps its own frames in the
     matching form.  conn.server_state['leave_uncompressed'] = True makes it write the
-    "uncompressed payload inside a compressed connection" form."""
+    "uncompressed payload inside a compressed connection" form.  Bytes of the client that the reader
+    rejects raise ValueError out of push() and are listed in conn.server_state['unreadable']."""
     from vt.world.vworld import VServer
     from vt.world import wire
 
@@ -132,6 +133,17 @@ def make_seg_server(**kw):
                     self.outbox.append((p.conn, data))
                 return
             VServer.respond(self, p, op, body, deliver=deliver, **kw2)
+
+        def on_data(self, conn, data):
+            # added for C06's handshake variants: what the independent reader rejected is also kept in
+            # conn.server_state['unreadable'] (the driver's defunct_on_error wrappers swallow the exception)
+            try:
+                VServer.on_data(self, conn, data)
+            except ValueError as e:
+                if conn.server_state.get('framed'):
+                    conn.server_state.setdefault('unreadable', []).append('%s (%d bytes pushed: %s...)' % (
+                        e, len(data), bytes(data[:12]).hex()))
+                raise
 
         def wrap(self, conn, frame_bytes):
             st = conn.server_state
